@@ -352,6 +352,8 @@ protected:
 
     virtual Action visitParenthesizedDeclarator(const ParenthesizedDeclaratorSyntax* node) override
     {
+        for (auto iter = node->attributes(); iter; iter = iter->next)
+            nonterminal(iter->value);
         terminal(node->openParenthesisToken(), node);
         nonterminal(node->innerDeclarator());
         terminal(node->closeParenthesisToken(), node);
